@@ -261,6 +261,32 @@ class Machine:
             val = x.compute(scheduler=sim)
         self.stats["steps"] = self.stats.get("steps", 0) + sim.steps
         self.last_sim = sim
+        return self.scribbled(val)
+
+    def scribbled(self, val):
+        """What compute() hands back belongs to the caller: with ``case["scribble"]`` the harness keeps a
+        private copy for its oracles and then OVERWRITES the returned array in place, as a user's
+        ``r += 1`` would.  Nothing a collection still holds (persisted blocks, literals in a cached
+        graph, source arrays) may change because of that."""
+        if not self.case.get("scribble"):
+            return val
+        if isinstance(val, tuple):
+            # dask.compute(x, x) hands back ONE object twice: copy everything first, scribble afterwards
+            keeps = tuple(v.copy() if isinstance(v, np.ndarray) else v for v in val)
+            for v in val:
+                self.scribbled(v)
+            return keeps
+        if isinstance(val, np.ndarray) and val.size and val.flags.writeable and val.dtype.kind in "biufc":
+            keep = val.copy()
+            try:
+                if isinstance(val, np.ma.MaskedArray):
+                    val.data[...] = 1
+                else:
+                    val[...] = 1 if val.dtype.kind != "b" else True
+                self.bump("fault.result_scribbled")
+            except Exception:  # noqa: BLE001
+                pass
+            return keep
         return val
 
     # ------------------------------------------------------------------ events
@@ -305,6 +331,7 @@ class Machine:
                 with warnings.catch_warnings():
                     warnings.simplefilter("ignore")
                     (out["value"],) = dask.compute(x, scheduler=sim)
+                    out["value"] = self.scribbled(out["value"])
                 self.stats["steps"] = self.stats.get("steps", 0) + sim.steps
                 self.last_sim = sim
             elif entry == "delayed":
@@ -313,7 +340,7 @@ class Machine:
                 flat = list(d.ravel()) if d.ndim else [d.item()]
                 with warnings.catch_warnings():
                     warnings.simplefilter("ignore")
-                    blocks = dask.compute(*flat, scheduler=sim)
+                    blocks = dask.compute(*flat, scheduler=sim)  # (Delayed results ARE the graph's objects: never scribbled)
                 self.stats["steps"] = self.stats.get("steps", 0) + sim.steps
                 self.last_sim = sim
                 out["blocks"] = (d.shape, blocks)
@@ -330,7 +357,7 @@ class Machine:
             sim = self.sim(ev, self.all_values is not None)
             with warnings.catch_warnings():
                 warnings.simplefilter("ignore")
-                vals = dask.compute(*[self.pool[v] for v in vs], scheduler=sim)
+                vals = self.scribbled(dask.compute(*[self.pool[v] for v in vs], scheduler=sim))
             self.stats["steps"] = self.stats.get("steps", 0) + sim.steps
             self.last_sim = sim
             out["vars"] = vs
